@@ -229,7 +229,7 @@ func init() {
 		},
 		Cases: func(tier string) int {
 			if tier == "thorough" {
-				return 16*220 + ssParts
+				return 16*160 + ssParts
 			}
 			return 16*40 + ssParts
 		},
@@ -250,7 +250,7 @@ func init() {
 		},
 		Cases: func(tier string) int {
 			if tier == "thorough" {
-				return 16*220 + ssParts
+				return 16*70 + ssParts
 			}
 			return 16*20 + ssParts
 		},
